@@ -49,7 +49,13 @@ LEVEL_TEXT = ("Lean theorems over the model of compute_affinity (everything GEOS
               "explicit band around the IoU of the ideal extents [max(s - tb, 0), e + tb] whenever the reported extent is "
               "within [rho, kappa] buffers of the raw bounds, the band is that IoU itself for rho = kappa = 1, and the "
               "model of buffer_shapely_geometry (C11) under its GEOS contracts meets the extent condition; the band is "
-              "evaluated on every time-branch pair with a buffered side.")
+              "evaluated on every time-branch pair with a buffered side.  Calls and histories: Python's binding of positional / "
+              "keyword / omitted arguments is modelled on a signature table (`bindCall`), proved to make the same call in every "
+              "style for every well-formed signature (C06_bind_wellformed), and the signature of the imported function is "
+              "re-extracted and shown well formed on every run; sequences of calls in one process on reused and changed "
+              "geometry objects are judged step by step by the pure model, which is exactly history freedom (C06_history); a "
+              "cache keyed by the whole call is proved invisible (C06_history_full_key_cache), one that forgets the buffers and "
+              "a shape memoised on an object across model_copy / assignment are proved visible.")
 LEVEL_NOTE = ("Unmodelled: GEOS overlay, buffer and area in binary64 (parameters of the model; `Sane` and `BoundsExact` checked "
               "exactly and `Sound` up to 2^-40 on every measured value).  GEOS's buffer is polygonal: the band of the time-only "
               "affinity uses rho = 1 for points (circle vertices on the axes) and rho = 0.9951 for line ends (round caps, "
@@ -60,19 +66,44 @@ LEVEL_NOTE = ("Unmodelled: GEOS overlay, buffer and area in binary64 (parameters
               "the converted polygons (`AreaExact`: shoelace area) are checked as contracts.  That binary64 round-to-nearest obeys `IsRounding` "
               "(monotone, exact on 0 and 1, idempotent, exact doubling) is assumed, not proved; the driver's executable "
               "`rnd64` is compared with Python's correctly rounded float(Fraction) on every run.  "
+              "Histories: the model is pure (one answer per step from the content the objects carry then); C06_history says that "
+              "agreement on every history is the same as no reachable state changing an answer, C06_history_keyed_cache that a "
+              "cache keyed by anything that determines the affinity is invisible, and two concrete witnesses (a cache that "
+              "forgets the buffers, a shape memoised on the object that survives model_copy / assignment) are proved not to be; "
+              "the histories run are finitely many sequences of 3-5 calls.  Call styles: Python's argument binding is modelled "
+              "(`bindCall`) on the signature table re-extracted by introspection; a buffer passed as float32 is only exercised "
+              "where float32 arithmetic is exact.  "
               "Known findings: argument-order dependence and self-affinity just below 1, both <= 2^-40, in the area branch "
               "(they come from GEOS, i.e. from `Sound` failing in the last bits, not from the arithmetic of compute_affinity). "
               "Model tied to the code by regenerated obligations and generator-bounded correspondence.")
 TECHNIQUE = ("Lean 4 proof over model with GEOS as a parameter under explicit contracts, in exact and in rounding arithmetic; "
              "symbolic-trace equality (whole function, all 81 type pairs, rounding-aware) and table obligations regenerated "
              "from source; differential correspondence over all 81 type pairs, bit-exact against a binary64 evaluation of "
-             "the model; property monitor on real outputs")
-RULE = ("all 81 ordered type pairs x buffers on dyadic grids (time buffers from 1/8 s to 4 s) and with arbitrary binary64 "
+             "the model; property monitor on real outputs, also along histories of calls on reused objects and over call styles / "
+             "construction paths resolved by the modelled argument binding")
+RULE = ("histories (affinity_history): 120 / 1200 sequences of 3-5 calls in one process - a pair, neighbours of it (other buffers, "
+        "the declared defaults passed and omitted, one or both geometries moved in time, the pair swapped, a geometry against "
+        "itself), the pair again; half of the neighbour steps reuse the live geometry objects of the step before: coordinates "
+        "re-assigned, model_copy(update=...) shallow / deep, copy.copy / deepcopy + assignment, the same objects with other "
+        "buffers or in the other order, optionally after compute_bounds / geometry_to_shapely / buffer_geometry were called on "
+        "them; every step judged like a plain pair (theorem C06_history), arguments snapshot before / after every call.  "
+        "calls (affinity_call): every ordered type pair x 9 call styles (positional, mixed, all keywords in another order, each "
+        "buffer omitted) x 18 ways of building the geometry objects (constructor with lists / tuples / ints / numpy scalars / "
+        "numpy arrays, model_validate, JSON, attributes, dump-and-validate, copy / deepcopy / model_copy / pickle, a subclass) x "
+        "buffers as float / int / numpy float64 / float32 / int64 / bool, resolved by the model's argument binding on the "
+        "signature extracted by introspection (C06_bind_wellformed).  near-identical pairs (every vertex, or some, moved by one "
+        "ulp / 1e-12 relative / a unit round trip x*1000/1000, x/1000*1000, x/3*3) of all nine types incl. buffered lines / points: "
+        "full monitor on 4 / 40 rounds, the range clause alone (affinity_range) on 35 / 500 rounds.  touching / overlapping / "
+        "missing extents by one ulp ... 2^-20 at magnitudes 1 ... 2^20 s and up to MAX_FREQUENCY, the clamp of a buffered time "
+        "stamp at 0, extents of one ulp; geometries with 17 / 257 / 1025 vertices or parts; the product time buffer x frequency "
+        "buffer x ordered type pair on fixed samples (a line with a bend at its latest time, holes, singleton multi-geometries).  "
+        "all 81 ordered type pairs x buffers on dyadic grids (time buffers from 1/8 s to 4 s) and with arbitrary binary64 "
         "coordinates, self pairs (aliased and "
         "not), touching / nested / zero-extent / tiny-overlap / full-band placements, exhaustive small interval / box grids, "
         "shifted pairs (time buffers up to 4 s, events up to 1000 s, offsets up to 1000 s); non-trivial = the implementation returned a number and at least one of the two orders is positive or "
         "the pair is disjoint in time; distinct = distinct (operation, input)")
-TRUSTED = ["shapely/GEOS area, intersection, buffer, bounds (measured per case; contracts Sane and BoundsExact exactly, Sound up to 2^-40; "
+TRUSTED = ["inspect.signature of the imported compute_affinity (names, order, kinds, defaults) is the signature Python binds calls with",
+           "shapely/GEOS area, intersection, buffer, bounds (measured per case; contracts Sane and BoundsExact exactly, Sound up to 2^-40; "
            "the buffered shapes' time / frequency extents and areas against the raw coordinates within [rho, kappa] buffers; "
            "AreaExact: area of converted polygons = shoelace area within 2^-40)",
            "GEOS's buffer of a scaled point / line geometry covers the disc of radius rho around every vertex and stays within "
@@ -89,7 +120,11 @@ ASSUMPTIONS = ["geometries are valid and polygonal ones non-self-intersecting (g
                "binary64 arithmetic is exact on the dyadic grids used for the round-once comparisons",
                "binary64 round-to-nearest-even obeys `IsRounding` on the magnitudes that occur (no overflow)",
                "GEOS satisfies `Sound` exactly only in exact arithmetic; in binary64 it does up to a relative 2^-40 (monitored)"]
-NOT_COMPARED = ["negative buffers (outside the property's quantifier; modelled and tied symbolically, not run differentially)",
+NOT_COMPARED = ["the values of the two default buffers (the property quantifies over all buffers; the documented order of the four parameters "
+                "and 'an omitted buffer is the declared default' are what the signature obligation and affinity_call pin)",
+                "the last bit of the result when a buffer is passed as numpy float32 (only powers of two on the small grid are "
+                "passed that way, where float32 arithmetic is exact)",
+                "negative buffers (outside the property's quantifier; modelled and tied symbolically, not run differentially)",
                 "the extent band / buffered-shape contracts are not evaluated in the regimes of the C11 known findings: a zero time "
                 "or frequency buffer (C11-zero-buffer-factor; outside the quantifier for point / line types), a line with an exact "
                 "reversal (C11-line-reversal; not simple), a buffer >= 1e4 times the extent of a line part on that axis "
@@ -677,11 +712,15 @@ _BASE = Op("affinity", None, to_model=lambda inp: _to_model(inp), compare=lambda
 
 def _h_build(inp):
     return {"g1": P.build(inp["g1"], inp.get("build", "validate")), "g2": P.build(inp["g2"], inp.get("build", "validate")),
-            "tb": _f(inp["tb"]), "fb": _f(inp["fb"])}
+            "tb": _f(inp["tb"]), "fb": _f(inp["fb"]), "omit": bool(inp.get("omit"))}
 
 
 def _h_call(args):
     from soundevent.evaluation import compute_affinity
+    if args.get("omit"):
+        # a plain call: the step's buffers are the declared defaults (after calls with other buffers nothing of those
+        # may linger in module state)
+        return [compute_affinity(args["g1"], args["g2"]), compute_affinity(args["g2"], args["g1"])]
     a12 = compute_affinity(args["g1"], args["g2"], time_buffer=args["tb"], freq_buffer=args["fb"])
     a21 = compute_affinity(args["g2"], args["g1"], time_buffer=args["tb"], freq_buffer=args["fb"])
     return [a12, a21]
@@ -721,7 +760,7 @@ def _h_modify(args, inp, how):
         else:
             n = P.change(o, gj, how2)
         new.append(n if n is not None else P.build(gj))
-    return {"g1": new[0], "g2": new[1], "tb": _f(inp["tb"]), "fb": _f(inp["fb"])}
+    return {"g1": new[0], "g2": new[1], "tb": _f(inp["tb"]), "fb": _f(inp["fb"]), "omit": bool(inp.get("omit"))}
 
 
 H_REUSE = tuple(P.REUSE) + ("prime+assign", "prime+copy_update", "prime+deep_copy_update", "prime+copy_assign")
@@ -747,7 +786,14 @@ def _h_variants(x, rng):
     disjoint; a little: another overlap), the pair swapped, a geometry against itself"""
     low = x["g1"]["type"] in LOW_DIM or x["g2"]["type"] in LOW_DIM
     pool = [("1/4", "1/2"), ("1/2", "1"), ("2", "1"), ("1/8", "4"), ("4", "1/4")] + ([] if low else [("0", "0")])
-    out = [{**x, "tb": tb, "fb": fb} for tb, fb in pool if (tb, fb) != (x["tb"], x["fb"])]
+    plain = {k: v for k, v in x.items() if k != "omit"}
+    out = [{**plain, "tb": tb, "fb": fb} for tb, fb in pool if (tb, fb) != (x["tb"], x["fb"])]
+    # the declared defaults, passed explicitly and omitted (0.01 s is not on the grid: tolerance)
+    dflt = {n: v["num"] for n, v in _doc_sig()[2:]}
+    if frac(dflt["time_buffer"]) > 0 and frac(dflt["freq_buffer"]) > 0:
+        for omit in (True, False):
+            out.append({**plain, "tb": dflt["time_buffer"], "fb": dflt["freq_buffer"], "mode": "free", "omit": omit})
+    x = plain
     for d in ("10", "1/2", "-1/4", "3", "1/8"):
         if _min_time(x["g2"]) + Fraction(d) >= 0:
             out.append({**x, "g2": _shift_geom_f(x["g2"], d)})
@@ -959,8 +1005,8 @@ def _signature_tie(ctx):
 
 
 # ---------------------------------------------------------------- tie 1b: symbolic traces
-class _GeomStub:
-    """a geometry stand-in: `.type` and `.coordinates` only"""
+class _GeomStub(c06_route.CacheFriendly):
+    """a geometry stand-in: `.type` and `.coordinates` (and what a cache key may be built from)"""
 
     def __init__(self, type, coordinates=None):
         self.type = type
@@ -993,7 +1039,7 @@ def _symbolic_ties(ctx):
 
     # (a) the area branch: areas and the intersection area symbolic
     V = ["a", "b", "i"]
-    a, b, i = [Sym.var(n) for n in V]
+    a, b, i = [c06_route.hvar(n) for n in V]
     inter = {("x", "y"): i}
     shapes = {"x": _ShapeStub("x", a, inter), "y": _ShapeStub("y", b, inter)}
 
@@ -1005,7 +1051,7 @@ def _symbolic_ties(ctx):
             return A.compute_affinity(_GeomStub("Polygon", "x"), _GeomStub("Polygon", "y"))
         finally:
             A.geometry_to_shapely = saved
-    ctx.sym_tie("ext_iou", run_area, V, "Rat", "some (SE.Affinity.iouC a b i)",
+    ctx.sym_tie("ext_iou", c06_route.isolated(run_area, A, O), V, "Rat", "some (SE.Affinity.iouC a b i)",
                 tactic="unfold ext_iou SE.Affinity.iouC\n  se_close", meta={"op": "affinity_geos"})
 
     # (b), (c) need the name `compute_affinity_in_time`; if the code no longer has it the marker-free traces of the
@@ -1016,7 +1062,7 @@ def _symbolic_ties(ctx):
 
     # (b) the time branch on symbolic bounds
     BV = ["s1", "l1", "e1", "h1", "s2", "l2", "e2", "h2"]
-    sy = {n: Sym.var(n) for n in BV}
+    sy = {n: c06_route.hvar(n) for n in BV}
 
     def run_time():
         saved = A.compute_bounds
@@ -1026,7 +1072,7 @@ def _symbolic_ties(ctx):
                                               _GeomStub("TimeInterval", tuple(sy[n] for n in BV[4:])))
         finally:
             A.compute_bounds = saved
-    ctx.sym_tie("ext_time_iou", run_time, BV, "Rat", "some (SE.Affinity.timeIoU s1 e1 s2 e2)",
+    ctx.sym_tie("ext_time_iou", c06_route.isolated(run_time, A, O), BV, "Rat", "some (SE.Affinity.timeIoU s1 e1 s2 e2)",
                 tactic="unfold ext_time_iou SE.Affinity.timeIoU\n  se_close", meta={"op": "affinity_closed"})
 
     # (c) the whole function on time-only arguments: _prepare_geometry, buffer_geometry, buffer_timestamp, the
@@ -1061,9 +1107,9 @@ def _symbolic_ties(ctx):
                 return A.compute_affinity(mk1(), mk2(), time_buffer=sy2["tb"], freq_buffer=sy2["fb"])
             finally:
                 O.data, A.compute_affinity_in_time = saved
-        return run
+        return c06_route.isolated(run, A, O)
     TV = ["t1", "u1", "t2", "u2", "tb", "fb"]
-    sy2 = {n: Sym.var(n) for n in TV}
+    sy2 = {n: c06_route.hvar(n) for n in TV}
     makers = {
         "stamp": (lambda k: (lambda: _GeomStub("TimeStamp", sy2["t" + k])), lambda k: f"(.timeStamp t{k})"),
         "interval": (lambda k: (lambda: _GeomStub("TimeInterval", [sy2["t" + k], sy2["u" + k]])),
@@ -1115,7 +1161,7 @@ def _rounded_ties(ctx):
         finally:
             A.geometry_to_shapely = saved
     _custom_tie(ctx, "ext_iou_r", lambda: R.formula_obligation(
-        "ext_iou_r", run_area, ["a", "b", "i"], "SE.Affinity.iouCR rnd a b i", "SE.Affinity.iouCR"),
+        "ext_iou_r", c06_route.isolated(run_area, A), ["a", "b", "i"], "SE.Affinity.iouCR rnd a b i", "SE.Affinity.iouCR"),
         {"op": "affinity_geos"})
     if not callable(getattr(A, "compute_affinity_in_time", None)):
         return
@@ -1131,7 +1177,7 @@ def _rounded_ties(ctx):
         finally:
             A.compute_bounds = saved
     _custom_tie(ctx, "ext_time_iou_r", lambda: R.formula_obligation(
-        "ext_time_iou_r", run_time, BV, "SE.Affinity.timeIoUR rnd s1 e1 s2 e2", "SE.Affinity.timeIoUR"),
+        "ext_time_iou_r", c06_route.isolated(run_time, A), BV, "SE.Affinity.timeIoUR rnd s1 e1 s2 e2", "SE.Affinity.timeIoUR"),
         {"op": "affinity_closed"})
 
 
@@ -1177,7 +1223,9 @@ def _bufs(rng, g1, g2, mode):
         if not low:
             pool += [("0", "0"), ("0", "1/2")]
         return rng.choice(pool)
-    pool = [(rat(0.01), rat(100.0)), (rat(0.05), rat(33.3)), ("1/8", "1/2"), (rat(1.5), rat(250.0)), (rat(3.0), rat(0.5))]
+    # ... frequency buffers of kilohertz too (what one uses for broadband calls): an internal cap / default only shows there
+    pool = [(rat(0.01), rat(100.0)), (rat(0.05), rat(33.3)), ("1/8", "1/2"), (rat(1.5), rat(250.0)), (rat(3.0), rat(0.5)),
+            (rat(0.02), rat(2500.0)), ("1/2", "5000")]
     if not low:
         pool.append(("0", "0"))
     return rng.choice(pool)
@@ -1187,9 +1235,12 @@ def _is_simple(gj):
     """inside the quantifier: polygons valid, lines not self-intersecting (a line that retraces itself makes
     GEOS's buffer produce a degenerate ring and compute_affinity raise)"""
     if gj["type"] in ("LineString", "MultiLineString"):
-        from soundevent.geometry import geometry_to_shapely
+        # shapely directly on the coordinates (not through the library's conversion, which is code under test)
+        import shapely
         try:
-            return bool(geometry_to_shapely(gen_geom.to_data(gj)).is_simple)
+            c = gen_geom.coords_float(gj)
+            shp = shapely.LineString(c) if gj["type"] == "LineString" else shapely.MultiLineString(c)
+            return bool(shp.is_simple)
         except Exception:  # noqa: BLE001
             return False
     if gj["type"] in ("Polygon", "MultiPolygon"):
